@@ -415,9 +415,12 @@ class Array:
 
         """
         array = self._checkarrayforappend(array)
-        fd.seek(0, 2)  # move to end
+        endpos = fd.seek(0, 2)  # move to end
         array.tofile(fd)
         fd.flush()
+        # numpy does not report it when buffered data cannot be written out
+        if os.fstat(fd.fileno()).st_size != endpos + array.nbytes:
+            raise OSError("could not write all data to file")
         return array.shape[0]
 
     def iterappend(self, arrayiterable):
